@@ -20,6 +20,15 @@
 (*   "SerializeConn"       connection state incl. credentials is written  *)
 (*   "TruncateHugeHeader"  the reloaded header is cut at a size limit     *)
 (*   "AllRcptsOnRetry"     all original recipients are handed on retry    *)
+(*   "BounceRewritesEnvelope" generating a failure report changes the     *)
+(*                         stored sender (what later attempts hand over)  *)
+(*   "SwallowCopyError"    a body that cannot be read completely is       *)
+(*                         stored (truncated) and the message accepted    *)
+(* An attempt delivers a set D and fails a set P permanently (a failure   *)
+(* report is generated for P when P is not empty: the queue runs with a   *)
+(* bounce pipeline); the rest fails temporarily and stays pending.        *)
+(* The body shape "faulty" is a buffer whose reader fails half-way: the   *)
+(* queue must refuse the message (AcceptRefused), it never hands it over. *)
 (***************************************************************************)
 EXTENDS Naturals, Sequences, FiniteSets, TLC, Json
 
@@ -68,15 +77,22 @@ Init ==
   /\ steps = 0 /\ restarts = 0
   /\ obs = ObsInit /\ hist = <<>>
 
+Cut(m) == [m EXCEPT !.body = IF @ = "faulty" THEN "truncated" ELSE @]   \* (only under SwallowCopyError)
 Stored(m) ==   \* what serialisation keeps
   [m EXCEPT !.tlsov = IF "DropFlagOnReload" \in Devs THEN FALSE ELSE @]
 Conn(m) == IF "SerializeConn" \in Devs /\ m.auth = "auth-trace" THEN "creds" ELSE "none"
 
+AcceptRefused ==
+  /\ phase = "new" /\ msg.body = "faulty" /\ "SwallowCopyError" \notin Devs
+  /\ phase' = "done"
+  /\ hist' = H([a |-> "AcceptRefused"])
+  /\ UNCHANGED <<msg, mem, disk, pending, steps, restarts, obs>>
+
 Accept ==
-  /\ phase = "new"
+  /\ phase = "new" /\ (msg.body # "faulty" \/ "SwallowCopyError" \in Devs)
   /\ LET m0 == IF "DropOverrideAtStart" \in Devs THEN [msg EXCEPT !.tlsov = FALSE] ELSE msg IN
-       /\ mem' = Rec(m0, Rcpts, "none")
-       /\ disk' = Rec(Stored(m0), Rcpts, Conn(msg))
+       /\ mem' = Rec(Cut(m0), Rcpts, "none")
+       /\ disk' = Rec(Stored(Cut(m0)), Rcpts, Conn(msg))
   /\ phase' = "queued"
   /\ obs' = ObsScan(ObsAccept(obs, msg, Rcpts), disk'.conn = "creds")
   /\ hist' = H([a |-> "Accept"])
@@ -85,19 +101,22 @@ Accept ==
 Reloaded(d) ==
   [d EXCEPT !.m.hdr = IF "TruncateHugeHeader" \in Devs /\ @ = "huge" THEN "truncated" ELSE @]
 
-\* one attempt: delivers the set D of the pending recipients, the rest fails temporarily
-Attempt(D) ==
-  /\ phase = "queued" /\ steps < MaxSteps /\ D \subseteq pending
+\* one attempt: delivers the set D of the pending recipients, fails the set P permanently (a failure
+\* report for P is handed to the bounce pipeline), the rest fails temporarily
+Attempt(D, P) ==
+  /\ phase = "queued" /\ steps < MaxSteps /\ D \subseteq pending /\ P \subseteq pending \ D
   /\ LET src == IF mem.k = "rec" THEN mem ELSE Reloaded(disk)
          rc  == IF "AllRcptsOnRetry" \in Devs /\ mem.k = "none" THEN Rcpts ELSE src.pending
-         np  == pending \ D
-     IN /\ obs' = ObsScan(ObsDelivered(ObsHand(obs, src.m, rc), D), disk.conn = "creds")
+         np  == pending \ (D \cup P)
+         bounced(m) == IF "BounceRewritesEnvelope" \in Devs /\ P # {} /\ m.sender = "idn" /\ ~m.utf8
+                       THEN [m EXCEPT !.sender = "idn-alabel"] ELSE m
+     IN /\ obs' = ObsScan(ObsDelivered(ObsHand(obs, src.m, rc), D \cup P), disk.conn = "creds")
         /\ pending' = np
         /\ mem' = None
-        /\ disk' = IF np = {} THEN None ELSE [disk EXCEPT !.pending = np]
+        /\ disk' = IF np = {} THEN None ELSE [disk EXCEPT !.pending = np, !.m = bounced(@)]
         /\ phase' = IF np = {} THEN "done" ELSE "queued"
   /\ steps' = steps + 1
-  /\ hist' = H([a |-> "Attempt", d |-> D])
+  /\ hist' = H([a |-> "Attempt", d |-> D, p |-> P])
   /\ UNCHANGED <<msg, restarts>>
 
 Restart ==
@@ -116,8 +135,8 @@ Emit ==
   /\ UNCHANGED <<msg, mem, disk, pending, steps, restarts, obs>>
 
 Next ==
-  \/ Accept \/ Restart \/ Emit
-  \/ \E D \in SUBSET Rcpts : Attempt(D)
+  \/ Accept \/ AcceptRefused \/ Restart \/ Emit
+  \/ \E D \in SUBSET Rcpts : \E P \in SUBSET (Rcpts \ D) : Attempt(D, P)
   \/ (phase = "end" /\ ~Gen /\ UNCHANGED vars)
 
 Spec == Init /\ [][Next]_vars
